@@ -369,7 +369,8 @@ def case_schedule(case, res):
         return failures
 
     explore.explore(make, lambda s: list(script), case['bound'], judge, res,
-                    dict(case), only=case.get('choices'), closing_ticks=10, shard=case.get('shard'))
+                    dict(case), only=case.get('choices'), closing_ticks=10, shard=case.get('shard'),
+                    first=case.get('first'))
     res.distinct('scenarios', case['scenario'])
 
 
@@ -570,19 +571,26 @@ def run_case(case, res):
         case_schedule(case, res)
 
 
-BOUND2 = ('header-proofs', 'warm-then-reorg')
+BOUND2 = {'header-proofs': ('stall:J:read_headers',),
+          'warm-then-reorg': ('stall:J:read_headers',),
+          'tx-proofs': ('stall:J:fs_tx_hashes_at_blockheight', 'hold:J:fs_tx_hashes_at_blockheight'),
+          'tsc-in-flight': ('stall:J:fs_tx_hashes_at_blockheight',)}
 
 
 def cases_for(tier):
     q = tier == 'quick'
     cases = [dict(history=h, all_positions=not q) for h in HISTORIES]
     for scn in ('tx-proofs', 'header-proofs', 'warm-then-reorg', 'burst', 'tsc-in-flight'):
-        # two deviations only on the shorter scenarios (a thorough run with bound 2 on all of
-        # them had not finished after 2.5 hours)
-        bound = 2 if (not q and scn in BOUND2) else 1
-        n = 5 if bound == 1 else 16
-        for i in range(n):
-            cases.append(dict(scenario=scn, bound=bound, shard=[i, n]))
+        for i in range(5):
+            cases.append(dict(scenario=scn, bound=1, shard=[i, 5]))
+    if not q:
+        # slices of bound 2 (the full second level did not finish in hours): every vector whose
+        # FIRST deviation keeps back a proof's own read
+        for scn, firsts in BOUND2.items():
+            for first in firsts:
+                n = 16 if scn == 'header-proofs' else 8
+                for i in range(n):
+                    cases.append(dict(scenario=scn, bound=2, first=first, shard=[i, n]))
     for depth in (1, 2) if q else (1, 2, 3):
         for variant in range(8):
             cases.append(dict(sliced=True, depth=depth, variant=variant))
@@ -619,7 +627,9 @@ def run(tier, seed, started):
         'sliced_undo_executions': c.get('sliced_executions', 0),
         'torn_read_executions': c.get('torn_read_executions', 0),
         'slice_points_per_reorg': c.get('max:slice_points'),
-        'deviation_bound_completed': 1 if tier == 'quick' else '2 on ' + ', '.join(BOUND2) + '; 1 on the others',
+        'deviation_bound_completed': 1 if tier == 'quick' else
+        '1 on all scenarios; of bound 2 the slices whose first deviation keeps back a proof\'s own '
+        'read (stall / hold of read_headers, fs_tx_hashes_at_blockheight) on ' + ', '.join(BOUND2),
         'deviation_kinds_used': sorted(kinds),
         'exhaustive': True,
     }
